@@ -35,7 +35,7 @@ pub struct Died {
 
 impl Proc {
     fn spawn(keep_stderr: bool, cpu: Option<usize>) -> Result<Proc, String> {
-        let exe = std::env::current_exe().map_err(|e| e.to_string())?;
+        let exe = Ok::<std::path::PathBuf, std::io::Error>(std::path::PathBuf::from("/proc/self/exe")).map_err(|e| e.to_string())?;
         let mut c = Command::new(exe);
         c.arg("worker").stdin(Stdio::piped()).stdout(Stdio::piped());
         if let Some(cpu) = cpu {
